@@ -170,6 +170,78 @@ def churn_history(rng, n):
     return lines
 
 
+def string_hash(b):
+    """cppcms::impl::string_hash (private/hash_map.h), the hash of mem_cache's primary and trigger maps"""
+    v = 0
+    for c in b:
+        v = ((v << 4) + c) & 0xFFFFFFFF
+        high = v & 0xF0000000
+        if high:
+            v = (v ^ (high >> 24)) ^ high
+    return v
+
+
+def collide_family(rng, exact=True):
+    """binary keys of one length that agree up to (and including) their first NUL byte and fall into the same bucket
+    of the hash map: equal string_hash (same bucket for every table size), or (exact=False) hashes that differ by a
+    multiple of 64 (same bucket in the small tables 2,4,..,64 of a young cache)"""
+    prefix = bytes(rng.choice(b"kq\x01\xfe\x7f") for _ in range(rng.choice((1, 1, 2, 3)))) + b"\x00"
+    nsuf = rng.choice((2, 2, 3))
+    groups = {}
+    for _ in range(6000):
+        suf = bytes(rng.randrange(256) if rng.random() < 0.7 else rng.choice((0, 1, 16)) for _ in range(nsuf))
+        h = string_hash(prefix + suf)
+        groups.setdefault(h if exact else h % 64, set()).add(prefix + suf)
+    if nsuf == 2 and exact:   # the 2-byte suffixes (a,b),(a-1,b+16) collide by construction
+        a, b = rng.randrange(1, 200), rng.randrange(0, 200)
+        fam = [prefix + bytes((a - i, b + 16 * i)) for i in range(0, min(a, (255 - b) // 16) + 1)][:4]
+        if len(fam) >= 2 and len({string_hash(x) for x in fam}) == 1:
+            return fam
+    best = max(groups.values(), key=len)
+    fam = sorted(best)[:rng.choice((2, 3, 4))]
+    return fam if len(fam) >= 2 else None
+
+
+def collide_history(rng):
+    """stores / fetches / rises over a family of colliding binary keys (NUL inside), across clients with and without L1.
+    Fetches do not ask for the trigger set (a key containing NUL comes back split: recorded finding tcp-key-nul);
+    the judge checks value, deadline and invalidation against the ideal shared cache keyed by the full byte string."""
+    fam = None
+    while not fam:
+        fam = collide_family(rng, exact=rng.random() < 0.7)
+    extra = [rand_name(rng) for _ in range(2)]
+    keys = fam + extra
+    nsrv = rng.choice((1, 1, 2))
+    ncl = rng.choice((2, 3))
+    l1 = [rng.choice(("n", "0", "5")) for _ in range(ncl)]
+    lines = ["cfg %s %s" % (",".join(["0"] * nsrv), ",".join(l1))]
+    now = 1000
+    # the scripted core: store k1, look at k2, store k2, look at k1, raise k2, look at k1
+    k1, k2 = fam[0], fam[1]
+    c = lambda: rng.randrange(ncl)
+    lines += ["store %d %d %s %s - 5000" % (c(), now, k1.hex(), b"one".hex()), "fetch %d %d %s 0" % (c(), now, k2.hex()),
+              "fetch %d %d %s 0" % (c(), now, k1.hex()),
+              "store %d %d %s %s - 5000" % (c(), now, k2.hex(), b"two".hex()), "fetch %d %d %s 0" % (c(), now, k1.hex()),
+              "fetch %d %d %s 0" % (c(), now, k2.hex()), "rise %d %s" % (c(), k2.hex()), "fetch %d %d %s 0" % (c(), now, k1.hex()),
+              "fetch %d %d %s 0" % (c(), now, k2.hex())]
+    trigs = [rand_name(rng) for _ in range(3)]
+    for _ in range(rng.randrange(10, 60)):
+        now += rng.choice((0, 0, 1))
+        r = rng.random()
+        k = rng.choice(keys)
+        if r < 0.3:
+            ts = [rng.choice(trigs) for _ in range(rng.choice((0, 0, 1, 2)))]
+            lines.append("store %d %d %s %s %s %d" % (c(), now, hx(k), rand_val(rng), trig_word(ts), now + 5000))
+        elif r < 0.8:
+            lines.append("fetch %d %d %s 0" % (c(), now, hx(k)))
+        elif r < 0.95:
+            t = rng.choice(fam + trigs)
+            lines.append("rise %d %s" % (c(), t.hex()))
+        else:
+            lines.append("stats %d" % c())
+    return lines
+
+
 SCRIPT = "abcdefghijk"
 
 
@@ -642,6 +714,9 @@ def main():
     ns = [1, 2, 127, 128, 255, 256, 257, 511, 512, 513, 1024, 4096] + ([65535, 65536, 65537] if thorough else [])
     hs = [churn_history(rng, n) for n in ns for _ in range(3 if thorough else 1)]
     run_stream("churn", hs, True)
+    # binary keys built to collide in mem_cache's hash map (same length, equal up to the first NUL, same bucket)
+    hs = [collide_history(rng) for i in range(400 if thorough else 40)]
+    run_stream("collide", hs, True)
     # ---- the excluded points (NUL / empty names): model must still follow the code; not judged
     hs = [gen_history(rng, rng.randrange(20, 120), hostile=True) for i in range(1200 if thorough else 30)]
     run_stream("hostile", hs, False)
